@@ -174,9 +174,10 @@ class PPRule:
 
     _empty_pattern = re.compile('')
 
-    def __init__(self, match, replace, postprocess=None):
+    def __init__(self, match, replace, postprocess=None, code_only=False):
         self.match = match
         self.replace = replace
+        self.code_only = code_only
 
         self._postprocess = postprocess
         self._info = defaultdict(list)
@@ -188,6 +189,45 @@ class PPRule:
         """
         Filter a source line by matching the given rule and storing meta-content.
         """
+        if self.code_only:
+            # Apply the rule only outside of string literals and comments
+            return ''.join(
+                self._filter(part, lineno) if is_code else part
+                for is_code, part in self._split_code(line)
+            )
+        return self._filter(line, lineno)
+
+    @staticmethod
+    def _split_code(line):
+        """
+        Split a source line into ``(is_code, text)`` parts, where string
+        literals and a trailing comment are marked as not being code.
+        """
+        if line.lstrip().startswith('#'):
+            # Preprocessor directives are left to the rule
+            return [(True, line)]
+        parts, start, pos, quote = [], 0, 0, None
+        while pos < len(line):
+            char = line[pos]
+            if quote:
+                if char == quote:
+                    quote = None
+                    parts += [(False, line[start:pos+1])]
+                    start = pos + 1
+            elif char in '\'"':
+                quote = char
+                parts += [(True, line[start:pos])]
+                start = pos
+            elif char == '!':
+                parts += [(True, line[start:pos])]
+                start = len(line)
+                parts += [(False, line[pos:])]
+                break
+            pos += 1
+        parts += [(quote is None, line[start:])]
+        return [(is_code, part) for is_code, part in parts if part]
+
+    def _filter(self, line, lineno):
         if isinstance(self.match, type(self._empty_pattern)):
             # Apply a regex pattern to the line and return 'all'
             for info in self.match.finditer(line):
@@ -220,7 +260,7 @@ sanitize_registry = {
     OMNI: {},
     FP: {
         # Remove various IBM directives
-        'IBM_DIRECTIVES': PPRule(match=re.compile(r'(@PROCESS.*\n)'), replace='\n'),
+        'IBM_DIRECTIVES': PPRule(match=re.compile(r'(^\s*@PROCESS.*\n)'), replace='\n'),
 
         # Enquote string CPP directives in Fortran source lines to make them string constants
         # Note: this is a bit tricky as we need to make sure that we don't replace it inside CPP
@@ -228,11 +268,12 @@ sanitize_registry = {
         'STRING_PP_DIRECTIVES': PPRule(
             match=re.compile((
                 r'(?P<pp>^\s*#.*__(?:FILE|FILENAME|DATE|VERSION)__)|'  # Match inside a directive
-                r'(?P<else>__(?:FILE|FILENAME|DATE|VERSION)__)')),     # Match elsewhere
-            replace=lambda m: m['pp'] or f'"{m["else"]}"'),
+                r'(?P<else>(?<![A-Za-z0-9_])__(?:FILE|FILENAME|DATE|VERSION)__(?![A-Za-z0-9_]))')),  # Match elsewhere
+            replace=lambda m: m['pp'] or f'"{m["else"]}"', code_only=True),
 
         # Replace integer CPP directives by 0
-        'INTEGER_PP_DIRECTIVES': PPRule(match='__LINE__', replace='0'),
+        'INTEGER_PP_DIRECTIVES': PPRule(
+            match=re.compile(r'(?<![A-Za-z0-9_])__LINE__(?![A-Za-z0-9_])'), replace='0', code_only=True),
 
         # Replace CONVERT argument in OPEN calls
         'CONVERT_ENDIAN': PPRule(
